@@ -82,7 +82,7 @@ struct Result {
         counters["violations_total"]++;
         std::string path = args.replaydir + "/" + property + "-" + std::to_string(getpid()) + "-" + std::to_string(replay_counter++) + ".replay";
         std::ofstream f(path);
-        f << "variant=" << args.variant << "\n" << "property=" << property << "\n" << "key=" << key << "\n" << "what=" << what << "\n" << replay_body;
+        f << "variant=" << args.variant << "\n" << "tier=" << args.tier << "\n" << "property=" << property << "\n" << "key=" << key << "\n" << "what=" << what << "\n" << replay_body;
         f.close();
         violations.push_back({key, what, path});
     }
